@@ -127,6 +127,16 @@ ApplyLive(st, op, a) ==
       [] op = "sort_by_col" -> IF a.col < c
                                THEN Upd(st, ApplyRowPerm(g, StablePerm(KeysOf(ColOf(g, a.col)))), Unit)
                                ELSE Rejected(st)
+      \* the key / natural-order forms of the sorts (same meaning; they call a key function / Ord instead of a comparator)
+      [] op \in {"sort_by_row_key", "sort_row_ord"} -> IF a.row < r
+                               THEN Upd(st, ApplyColPerm(g, StablePerm(KeysOf(RowOf(g, a.row)))), Unit)
+                               ELSE Rejected(st)
+      [] op \in {"sort_by_col_key", "sort_col_ord"} -> IF a.col < c
+                               THEN Upd(st, ApplyRowPerm(g, StablePerm(KeysOf(ColOf(g, a.col)))), Unit)
+                               ELSE Rejected(st)
+      \* CopyOps on an owned array: every cell is overwritten with a clone of the source's cell (sizes must match)
+      [] op = "clone_from_slice"  -> IF Len(a.items) = c * r THEN Upd(st, FromFlat(c, r, a.items), Unit) ELSE Rejected(st)
+      [] op = "clone_from_toodee" -> IF a.nc = c /\ a.nr = r THEN Upd(st, FromFlat(c, r, a.items), Unit) ELSE Rejected(st)
       [] op = "clone"      -> Same(st, Ids(Flat(g)))       \* an equal, independent array (compared, mutated, dropped)
       \* Clone::clone_from(&mut self, &source): afterwards self equals the source (a.nc x a.nr holding a.items);
       \* what self held before is dropped
@@ -144,6 +154,7 @@ ApplyLive(st, op, a) ==
 LiveOps == {"insert_row", "push_row", "insert_col", "push_col", "remove_row", "pop_row", "remove_col", "pop_col",
             "clear", "swap_dimensions", "reserve", "reserve_exact", "shrink_to_fit", "fill", "set", "swap",
             "swap_rows", "swap_cols", "translate", "flip_rows", "flip_cols", "sort_by_row", "sort_by_col",
+            "sort_by_row_key", "sort_row_ord", "sort_by_col_key", "sort_col_ord", "clone_from_slice", "clone_from_toodee",
             "clone", "clone_from", "from_view", "into_vec", "into_box", "into_iter", "drop", "leak_borrow"}
 
 Enabled(st, op) == \/ st.phase \in {"none", "gone"} /\ st.handle.kind = "none" /\ op \in ConstructorOps
